@@ -26,10 +26,15 @@ Exec(x, i) ==
     [] i.k = "bx"   -> ExecBX(x, i)
     [] i.k = "cbz"  -> ExecCBZ(x, i)
     [] i.k = "it"   -> ExecIT(x, i)
+    [] i.k = "tb"   -> ExecTB(x, i)
+    [] i.k = "ls"   -> ExecLS(x, i)
+    [] i.k = "lsd"  -> ExecLSD(x, i)
+    [] i.k = "ldm"  -> ExecLDM(x, i)
+    [] i.k = "stm"  -> ExecSTM(x, i)
     [] i.k = "udf"  -> Raise(x, "undef")
     [] i.k = "svc"  -> Raise(x, "svc")
     [] OTHER -> NotImpl(x, "spec-missing:" \o i.k)
-Executable == {"dp", "adr", "movw", "movt", "b", "bl", "blxr", "bx", "cbz", "it", "udf", "svc"}
+Executable == {"dp", "adr", "movw", "movt", "b", "bl", "blxr", "bx", "cbz", "it", "udf", "svc", "ls", "lsd", "ldm", "stm", "tb"}
 
 \* the fetch: act = [n |-> "Step"] reads memory at PC; act = [n |-> "Exec", w, len] uses the given word
 FetchInstr(x, act) ==
